@@ -4,20 +4,9 @@
    segments and points, over an arbitrary Ops.  The receiver fields (line, unitVector, length) are
    the parameters of the generated definitions; a *Line2 is the pair of its end points. *)
 From Coq Require Import ZArith List Bool.
-From Sdfx Require Import Num.Ops Num.Loop Geo.Vec Geo.Box Sdf.Poly Generated.SdfExpr.
+From Sdfx Require Import Num.Ops Num.Loop Geo.Vec Geo.Box Sdf.Poly Generated.SdfExpr Sdf.GenEqTac.
 Import OpsNotations ListNotations.
 Local Open Scope ops_scope.
-
-Ltac same_poly s :=
-  first [ reflexivity
-        | cbv zeta;
-          repeat (try reflexivity;
-                  match goal with
-                  | |- context [if ?c then _ else _] =>
-                      lazymatch c with true => fail | false => fail | _ => destruct c end
-                  end)
-        | fail 1 s ": the definition generated from the current Go source is not convertible to the hand-written model" ].
-Tactic Notation "same_poly_as" ident(s) := same_poly s.
 
 Section GenEqPoly.
   Context {O : Ops}.
@@ -26,13 +15,13 @@ Section GenEqPoly.
   Definition li_of (x : (V2 O * V2 O) * V2 O * T O) : @LineInfo O :=
     mkLI (fst (fst (fst x))) (snd (fst (fst x))) (snd (fst x)) (snd x).
   Lemma newLineInfo_eq : forall l : @Seg O, li_of (sdf_newLineInfo l) = new_line_info l.
-  Proof. intros. unfold sdf_newLineInfo, new_line_info, li_of. same_poly_as TRANSL_newLineInfo. Qed.
+  Proof. intros. unfold sdf_newLineInfo, new_line_info, li_of. same_as TRANSL_newLineInfo. Qed.
 
   Lemma lineInfo_minDistance2_eq : forall (a : @LineInfo O) (p : V2 O),
     sdf_lineInfo_minDistance2 (li_a a, li_b a) (li_u a) (li_len a) p = min_distance2 a p.
-  Proof. intros. unfold sdf_lineInfo_minDistance2, min_distance2. same_poly_as TRANSL_lineInfo_minDistance2. Qed.
+  Proof. intros. unfold sdf_lineInfo_minDistance2, min_distance2. same_as TRANSL_lineInfo_minDistance2. Qed.
 
   Lemma lineInfo_winding_eq : forall (a : @LineInfo O) (p : V2 O),
     sdf_lineInfo_winding (li_a a, li_b a) (li_u a) p = winding a p.
-  Proof. intros. unfold sdf_lineInfo_winding, winding. same_poly_as TRANSL_lineInfo_winding. Qed.
+  Proof. intros. unfold sdf_lineInfo_winding, winding. same_as TRANSL_lineInfo_winding. Qed.
 End GenEqPoly.
